@@ -1,6 +1,7 @@
 (* C18 - Rollback restores, commit keeps: the auditable store is atomic over
    any history.  Property theorems only; proofs are in Auditable/Proofs.v. *)
 From RV Require Import Auditable.Model Auditable.Proofs Auditable.Batch Auditable.BatchProofs.
+From RV Require Import Auditable.OverStore Auditable.OverStoreProofs Auditable.OverMemory Auditable.OverMemoryProofs.
 
 (* Two wrappers over one store, any interleaving: after every add/remove the
    store is the set the operation prescribes, after commit it is unchanged,
@@ -51,6 +52,84 @@ Print Assumptions C18_idempotent.
 Theorem C18_batches : forall c, NoDup (b_init c) -> bspec_ok c (bmodel_obs c) = true.
 Proof. exact bspec_ok_model. Qed.
 Print Assumptions C18_batches.
+
+(* ------------------------------------------------------------------ *)
+(* The wrapper over a CONCRETE store (Auditable/OverStore.v): auditable.py again,
+   but every access to the wrapped store goes through the store's own add /
+   remove / triples, whose enumeration order decides the order of the log.   *)
+
+(* For ANY store whose add, remove and triples satisfy the three exactness laws,
+   and any history of both wrappers: after every operation the store holds exactly
+   the quads that the list-level model of Auditable/Model.v holds (so every theorem
+   above transfers).  The logs agree only up to permutation; the proof goes through
+   the invariant that no quad has both an "add" and a "remove" entry. *)
+Theorem C18_over_any_store :
+  forall (St : Type) (s_add : St -> cid -> triple -> St) (s_rem : St -> cid -> pat -> St)
+         (s_tri : St -> cid -> pat -> list triple) (holds : St -> cid -> triple -> bool) (Inv : St -> Prop),
+    (forall m c t0, Inv m -> Inv (s_add m c t0) /\
+       forall c' t, holds (s_add m c t0) c' t = (N.eqb c' c && triple_eqb t t0) || holds m c' t) ->
+    (forall m c p, Inv m -> Inv (s_rem m c p) /\
+       forall c' t, holds (s_rem m c p) c' t = holds m c' t && negb (N.eqb c' c && matches p t)) ->
+    (forall m c p, Inv m -> NoDup (s_tri m c p) /\
+       forall t, In t (s_tri m c p) <-> matches p t = true /\ holds m c t = true) ->
+    forall ops m S, Inv m -> (forall c t, holds m c t = q_mem (t, c) S) -> NoDup S ->
+      Forall2 (fun m' S' => forall c t, holds m' c t = q_mem (t, c) S')
+              (x_run St s_add s_rem s_tri (x_init m) ops)
+              (a_run (a_init S) (map to_aop ops)).
+Proof.
+  intros St s_add s_rem s_tri holds Inv A1 A2 A3 ops m S Hi Ha Hn.
+  apply (over_store_refines St s_add s_rem s_tri holds Inv A1 A2 A3). now apply Sim_init.
+Qed.
+Print Assumptions C18_over_any_store.
+
+(* The Memory model of C01 (three nested indexes, per-triple context dict with the
+   default-context compression, per-context triple sets) is such a store: C01's theorems
+   mem_add_ok, mem_remove_ok, mem_triples_exact are the three laws. *)
+Theorem C18_over_memory_refines : forall ops m S,
+  Store.MemProofs.MemInv m -> (forall c t, mem_holds m c t = q_mem (t, c) S) -> NoDup S ->
+  Forall2 (fun m' S' => forall c t, mem_holds m' c t = q_mem (t, c) S')
+          (x_run mem mem_add mem_remove mem_triples (x_init m) ops)
+          (a_run (a_init S) (map to_aop ops)).
+Proof. exact mem_refines. Qed.
+Print Assumptions C18_over_memory_refines.
+
+(* One wrapper over the Memory model, any initial content, any history: after every add /
+   remove the Memory store holds what the operation prescribes, after commit what it held,
+   after rollback EXACTLY what it held when the transaction began - in terms of the
+   store's own membership function mem_holds ([xsingle] spells this out). *)
+Theorem C18_over_memory_rollback_restores : forall S ops,
+  NoDup S -> only_w0 ops = true ->
+  xsingle mem mem_holds (mem_of S) (mem_of S) ops
+          (x_run mem mem_add mem_remove mem_triples (x_init (mem_of S)) ops).
+Proof. exact mem_single. Qed.
+Print Assumptions C18_over_memory_rollback_restores.
+
+Theorem C18_xsingle_rollback_reading : forall (St : Type) (holds : St -> cid -> triple -> bool)
+    snap prev w r now obs,
+  xsingle St holds snap prev (CRollback w :: r) (now :: obs) ->
+  forall c t, holds now c t = holds snap c t.
+Proof. intros St holds snap prev w r now obs [H _]. exact H. Qed.
+Print Assumptions C18_xsingle_rollback_reading.
+
+(* what the suite `auditable_memory` evaluates: the Memory-level model's observations
+   (the quads of the universe that mem_holds reports) equal, as sets, those of the list-level model *)
+Theorem C18_over_memory_obs : forall c,
+  NoDup (m_init c) -> obs_eqb (mm_obs c) (model_obs (m_case c)) = true.
+Proof. exact mm_obs_agrees. Qed.
+Print Assumptions C18_over_memory_obs.
+
+Example C18_over_memory_nonvacuous :
+  let c := {| m_init := [((1, 2, 3), 7); ((4, 2, 3), 7)]%N;
+              m_ops := [CRemove false (None, Some 2, None)%N 7%N; CAdd false (9, 2, 3)%N 8%N;
+                        CAdd false (1, 2, 3)%N 7%N; CRollback false] |} in
+  NoDup (m_init c) /\ only_w0 (m_ops c) = true
+  /\ mspec_ok c (mm_obs c) = true
+  /\ qseteqb (last (mm_obs c) []) (m_init c) = true
+  /\ map (@length quad) (mm_obs c) = [0; 1; 2; 2]%nat.
+Proof.
+  cbv zeta. split; [cbn [m_init]; repeat constructor; simpl; intuition congruence|].
+  split; [vm_compute; reflexivity|]. split; [vm_compute; reflexivity|]. split; vm_compute; reflexivity.
+Qed.
 
 (* The code as it was before the "fix:" commit (finding F2) does not have the
    property: witness history remove; re-add; rollback. *)
